@@ -370,25 +370,57 @@ Example row_own_eq_detected : final_entry (Cf ApiD None None None None None HN H
                                        false None false (B false false BHObj false)) = ENone.
 Proof. reflexivity. Qed.
 
+(** ** B.0 the key-presence tests of [Attribute.__init__], [_make_eq_script], [_make_hash_script] *)
+
+(** Consistent tests: [__eq__] and [__hash__] apply a key to exactly the same fields. *)
+Lemma keys_agree_l : forall ts, tests_consistent ts = true -> forall f, f_key_eq ts f = f_key ts f.
+Proof.
+  intros [[| |] [| |] [| |]] Hc; cbn in Hc; try discriminate;
+    intros [h [| |[| | |]]]; reflexivity.
+Qed.
+
+(** Inconsistent tests (the attribute keeps a falsy key, [__eq__] applies it, [__hash__]
+    tests truthiness): equal instances with different hashes. *)
+Definition seed_tests : ktests := KT KIsNotNone KIsNotNone KTruthy.
+Lemma inconsistent_tests_break_contract_l :
+  tests_consistent seed_tests = false /\
+  let fs := [F None (EqK K0f)] in
+  eq_fields nat fkey seed_tests Nat.eqb fs [0] [2] = true /\
+  hash_elems nat fkey seed_tests fs [0] <> hash_elems nat fkey seed_tests fs [2].
+Proof. cbn. repeat split; try reflexivity. discriminate. Qed.
+
+(** The tests found in the source of this run are consistent (regenerated on every run). *)
+Lemma source_key_tests_consistent_l : tests_consistent Gen.C04_consts.src_key_tests = true.
+Proof. reflexivity. Qed.
+
+(** A falsy key callable that the attribute drops is dropped everywhere. *)
+Example falsy_key_dropped_everywhere :
+  let ts := KT KTruthy KTruthy KTruthy in
+  attr_key ts (F None (EqK K0f)) = None /\ f_key_eq ts (F None (EqK K0f)) = None /\
+  f_key ts (F None (EqK K0f)) = None /\ f_key ts (F None (EqK K0)) = Some K0.
+Proof. repeat split. Qed.
+
 (** ** Part B *)
 Section SemProofs.
   Variable val : Type.
   Variable key : keyid -> val -> val.
+  Variable ts : ktests.
   Variable eh : Type.
   Variable ehash : val -> eh.
   Variable hres : Type.
   Variable H : Z -> list eh -> hres.
   Variable py_eq : val -> val -> bool.
 
-  Notation keyed := (keyed val key).
-  Notation hash_elems := (hash_elems val key).
-  Notation compute := (compute val key eh ehash hres H).
-  Notation eq_fields := (eq_fields val key py_eq).
+  Notation keyed := (keyed val key ts).
+  Notation keyed_eq := (keyed_eq val key ts).
+  Notation hash_elems := (hash_elems val key ts).
+  Notation compute := (compute val key ts eh ehash hres H).
+  Notation eq_fields := (eq_fields val key ts py_eq).
   Notation inst := (inst val hres).
   Notation init := (init val hres).
-  Notation do_hash := (do_hash val key eh ehash hres H).
-  Notation step := (step val key eh ehash hres H).
-  Notation run := (run val key eh ehash hres H).
+  Notation do_hash := (do_hash val key ts eh ehash hres H).
+  Notation step := (step val key ts eh ehash hres H).
+  Notation run := (run val key ts eh ehash hres H).
   Notation op := (op val).
 
   (** *** frame: only the class salt and the keyed values of participating fields matter *)
@@ -417,6 +449,11 @@ Section SemProofs.
 
   (** *** the hash/eq contract *)
   Hypothesis ehash_respects_eq : forall a b, py_eq a b = true -> ehash a = ehash b.
+  (** [__eq__] and [__hash__] decide in the same way whether a field has a key *)
+  Hypothesis key_tests_consistent : tests_consistent ts = true.
+
+  Lemma keyed_eq_keyed f v : keyed_eq f v = keyed f v.
+  Proof. unfold Model.keyed_eq, Model.keyed. now rewrite (keys_agree_l ts key_tests_consistent f). Qed.
 
   Lemma eq_fields_elems fs : forall xs ys,
     forallb (fun f => implb (in_hash f) (f_eq_on f)) fs = true ->
@@ -429,14 +466,15 @@ Section SemProofs.
     cbn in Hw, He |- *. apply andb_true_iff in Hw as [Hf Hw]. apply andb_true_iff in He as [Hx He].
     injection Hl as Hl. specialize (IH xs ys Hw Hl He).
     destruct (in_hash f) eqn:Hin; [|exact IH].
-    cbn in Hf. rewrite Hf in Hx. cbn. rewrite IH. f_equal. now apply ehash_respects_eq.
+    cbn in Hf. rewrite Hf in Hx. rewrite !keyed_eq_keyed in Hx.
+    cbn. rewrite IH. f_equal. now apply ehash_respects_eq.
   Qed.
 
   Theorem hash_eq_contract_l : forall x y : obj val hres,
     (cid (o_cls _ _ x) = cid (o_cls _ _ y) -> o_cls _ _ x = o_cls _ _ y) ->
     hash_within_eq (o_cls _ _ x) = true ->
     length (vals (o_inst _ _ x)) = length (vals (o_inst _ _ y)) ->
-    gen_eq val key hres py_eq x y = Some true ->
+    gen_eq val key ts hres py_eq x y = Some true ->
     compute (o_cls _ _ x) (vals (o_inst _ _ x)) = compute (o_cls _ _ y) (vals (o_inst _ _ y)).
   Proof.
     intros [cx ix] [cy iy] Hwf Hw Hl He. cbn in *. unfold gen_eq in He. cbn in He.
@@ -599,7 +637,7 @@ End SemProofs.
 (** ** B, concrete: the free interpretation decides equality in every interpretation *)
 Theorem free_complete_l : forall (eh hres : Type) (ehash : nat -> eh) (H : Z -> list eh -> hres) c xs ys,
   fcompute c xs = fcompute c ys ->
-  compute nat fkey eh ehash hres H c xs = compute nat fkey eh ehash hres H c ys.
+  compute nat fkey fts eh ehash hres H c xs = compute nat fkey fts eh ehash hres H c ys.
 Proof.
   intros eh hres ehash H c xs ys. unfold fcompute, compute, fH. rewrite !map_id.
   intros E. injection E as E. now rewrite E.
@@ -621,7 +659,7 @@ Example contract_example :
 Proof. cbn. split; reflexivity. Qed.
 
 Example frame_example :
-  agree nat fkey [F None EqT; F (Some false) EqT] [1; 0] [1; 2].
+  agree nat fkey fts [F None EqT; F (Some false) EqT] [1; 0] [1; 2].
 Proof. apply agree_in; [reflexivity | reflexivity |]. apply agree_out; [reflexivity|]. constructor. Qed.
 
 (** assignment after hashing: the cached value is stale — by design *)
@@ -646,23 +684,24 @@ Proof. reflexivity. Qed.
 Section FromInit.
   Variable val : Type.
   Variable key : keyid -> val -> val.
+  Variable ts : ktests.
   Variable eh : Type.
   Variable ehash : val -> eh.
   Variable hres : Type.
   Variable H : Z -> list eh -> hres.
 
   Theorem hash_total_init_l : forall c ops vs,
-    hash_returns val key eh ehash hres H c (init val hres c vs) ops.
+    hash_returns val key ts eh ehash hres H c (init val hres c vs) ops.
   Proof. intros. apply hash_total_l. apply init_inited. Qed.
 
   Theorem cached_equals_uncached_init_l : forall c ops vs,
     forallb (fun o => negb (is_set val o)) ops = true ->
-    hashes_uncached val key eh ehash hres H c (init val hres c vs) ops.
+    hashes_uncached val key ts eh ehash hres H c (init val hres c vs) ops.
   Proof. intros. apply cached_equals_uncached_l; [assumption | apply init_slot_ok]. Qed.
 
   Theorem cache_once_init_l : forall c ops vs,
     cache c = true -> forallb (hash_or_set val) ops = true ->
-    computations hres (run val key eh ehash hres H c (init val hres c vs) ops)
+    computations hres (run val key ts eh ehash hres H c (init val hres c vs) ops)
     = if existsb (fun o => negb (is_set val o)) ops then 1 else 0.
   Proof.
     intros c ops vs Hc Ho. apply cache_once_l; auto. unfold init; cbn. now rewrite Hc.
@@ -683,12 +722,13 @@ Proof. cbn. split; [reflexivity | discriminate]. Qed.
 Section ScriptDenotes.
   Variable val : Type.
   Variable key : keyid -> val -> val.
+  Variable ts : ktests.
   Variable dv : val.
 
   Definition eval_elem (fs : list fld) (vs : list val) (e : helem) : val :=
     match e with
     | HField n => nth n vs dv
-    | HKeyed n => match f_key (nth n fs (F None EqT)) with
+    | HKeyed n => match f_key ts (nth n fs (F None EqT)) with
                   | Some k => key k (nth n vs dv)
                   | None => nth n vs dv
                   end
@@ -696,26 +736,26 @@ Section ScriptDenotes.
 
   Lemma script_elems_denote_gen : forall fs vs pf pv,
     length pf = length pv -> length fs = length vs ->
-    map (eval_elem (pf ++ fs) (pv ++ vs)) (script_elems (length pf) fs) = hash_elems val key fs vs.
+    map (eval_elem (pf ++ fs) (pv ++ vs)) (script_elems ts (length pf) fs) = hash_elems val key ts fs vs.
   Proof.
     induction fs as [|f r IH]; intros vs pf pv Hp Hl; [reflexivity|].
     destruct vs as [|v vs]; [discriminate|]. cbn in Hl. injection Hl as Hl.
-    assert (Hrec : map (eval_elem (pf ++ f :: r) (pv ++ v :: vs)) (script_elems (S (length pf)) r)
-                   = hash_elems val key r vs).
+    assert (Hrec : map (eval_elem (pf ++ f :: r) (pv ++ v :: vs)) (script_elems ts (S (length pf)) r)
+                   = hash_elems val key ts r vs).
     { specialize (IH vs (pf ++ [f]) (pv ++ [v])).
       rewrite !app_length in IH. cbn in IH. rewrite Nat.add_1_r in IH.
       rewrite <- !app_assoc in IH. cbn in IH. apply IH; [lia | exact Hl]. }
     cbn. destruct (in_hash f); [|exact Hrec].
     cbn. rewrite Hrec. f_equal.
-    unfold keyed. destruct (f_key f) eqn:Ek; cbn.
+    unfold keyed. destruct (f_key ts f) eqn:Ek; cbn.
     - rewrite nth_middle. rewrite Ek. rewrite Hp. now rewrite nth_middle.
     - rewrite Hp. now rewrite nth_middle.
   Qed.
 
   Theorem script_denotes_l : forall c vs, length (flds c) = length vs ->
-    map (eval_elem (flds c) vs) (hs_elems (make_hash_script c)) = hash_elems val key (flds c) vs
-    /\ hs_wrapper_arg (make_hash_script c) = cache c
-    /\ (hs_store (make_hash_script c) = StReturn <-> cache c = false).
+    map (eval_elem (flds c) vs) (hs_elems (make_hash_script ts c)) = hash_elems val key ts (flds c) vs
+    /\ hs_wrapper_arg (make_hash_script ts c) = cache c
+    /\ (hs_store (make_hash_script ts c) = StReturn <-> cache c = false).
   Proof.
     intros c vs Hl. split; [|split].
     - exact (script_elems_denote_gen (flds c) vs [] [] eq_refl Hl).
